@@ -189,7 +189,13 @@ fn q4_ref_case(sub: bool) -> OpCase {
             let (f, g) = (IntOfLogPoly4::from_nums(a), IntOfLogPoly4::from_nums(b));
             let r = guard(|| if sub { &f - &g } else { &f + &g }).map_err(|p| (format!("reference operator panicked: {p}"), json!(p)))?;
             let want: Vec<f64> = a.iter().zip(b).map(|(&x, &y)| if sub { ps(x, y) } else { pa(x, y) }).collect();
-            cmp_nums("reference +/- on IntOfLogPoly4 is not number by number", &r.nums(), &want)
+            cmp_nums("reference +/- on IntOfLogPoly4 is not number by number", &r.nums(), &want)?;
+            if all_bits_eq(a, b) {
+                // the same object on both sides (&f + &f, as a piecewise function added to itself does piece by piece)
+                let r2 = guard(|| if sub { &f - &f } else { &f + &f }).map_err(|p| (format!("reference operator with the same object on both sides panicked: {p}"), json!(p)))?;
+                cmp_nums("reference +/- on IntOfLogPoly4 with the same object on both sides is not number by number", &r2.nums(), &want)?;
+            }
+            Ok(())
         }),
     }
 }
@@ -212,10 +218,14 @@ fn polyn_translate_case(len: usize) -> OpCase {
     OpCase {
         ty: format!("PolyN(len {len})"), op: "Translate", n: len, binary: false, scalar: true,
         run: Box::new(move |a, _b, s| {
-            let mut r = PolyN(a.to_vec());
-            guard(|| r.translate(s)).map_err(|p| (format!("translate panicked: {p}"), json!(p)))?;
             let want = if a.is_empty() { vec![s] } else { let mut w = a.to_vec(); w[0] = pa(a[0], s); w };
-            cmp_nums("PolyN::translate(c) must add c to coefficient 0 (empty polynomial becomes [c])", &r.0, &want)
+            // every allocation history of the coefficient vector (tight, spare capacity, truncated, grown by push, one spare slot)
+            for m in 0..SLACK_MODES {
+                let mut r = PolyN(with_slack(a, m));
+                guard(|| r.translate(s)).map_err(|p| (format!("translate panicked: {p}"), json!(p)))?;
+                cmp_nums("PolyN::translate(c) must add c to coefficient 0 (empty polynomial becomes [c])", &r.0, &want)?;
+            }
+            Ok(())
         }),
     }
 }
